@@ -211,6 +211,28 @@ def run(ctx):
     big["e"] = np.zeros(Nbig)
     bpath = os.path.join(ctx.tmpdir, "c16_big.hdf5")
     big.write(bpath, overwrite=True)
+    # range requests on the large cache (more rows than 2^16): every row of the request exactly once, whatever the batch count
+    for k in range(ctx.n(12, 60)):
+        nb = int(rng.choice([1, 2, 3, 7]))
+        kw = dict(n_batches=nb)
+        if rng.random() < 0.5:
+            nreq = int(rng.choice([Nbig, 65536, 65537, 69000]))
+            kw["n_prior_samples"] = nreq
+        else:
+            nreq = Nbig
+        pool = CapturePool()
+        case = dict(kind="range-on-large-cache", n=nreq, n_batches=nb)
+        try:
+            res = mh.run_worker(ident, pool, bpath, task_args=(), **kw)
+        except Exception as e:
+            ctx.exception(e, "run_worker on the large cache", case)
+            continue
+        ctx.evaluations += 1
+        ctx.count("large_cache_range_requests")
+        got_tasks = np.concatenate([np.asarray(ident(t), dtype=np.int64) for t in pool.tasks]) if pool.tasks else np.array([])
+        if got_tasks.shape != (nreq,) or not np.array_equal(got_tasks, np.arange(nreq)):
+            ctx.violation("pool-batches-wrong-coverage", "a request for the first %d rows of a %d-row cache in %d batches was handed to "
+                          "the pool as %d rows (tasks %s...)" % (nreq, Nbig, nb, len(got_tasks), [t[0] for t in pool.tasks][:4]), case)
     for k in range(ctx.n(60, 400)):
         n = int(rng.choice([2, 5, 40, 300, 2000]))
         hi = int(rng.choice([300, 3000, 66000, Nbig]))
